@@ -148,6 +148,30 @@ def rejected_ops(rng, ub, c):
         ops.append((f"cons:asdict-{vl}", lambda val=val: setattr(c, "asdict", {first[0]: first[1], valn: val})))
         ops.append((f"cons:astuple-{vl}", lambda val=val: setattr(c, "astuple", ((first[0], first[1]) if first[0] not in VOID else first[0], (valn, val)))))
         ops.append((f"lattice:{vl}", lambda val=val: ub.set_lattice("x", 4.0, val, 5.0)))
+    # well-formed but numerically degenerate arguments: whatever the library decides about them (accept or refuse), a refusal leaves no trace
+    nan, inf = float("nan"), float("inf")
+    DEG = {"zeros": np.zeros((3, 3)), "rank1": np.outer([1.0, 2.0, 3.0], [1.0, -1.0, 0.5]), "rank2": np.array([[1.0, 2.0, 3.0], [4.0, 5.0, 6.0], [7.0, 8.0, 9.0]]),
+           "zero-row": np.array([[1.0, 0, 0], [0, 0, 0], [0, 0, 1.0]]), "nan": np.full((3, 3), nan), "one-nan": np.array([[1.0, 0, 0], [0, nan, 0], [0, 0, 1.0]]),
+           "inf": np.array([[inf, 0, 0], [0, 1.0, 0], [0, 0, 1.0]]), "huge": np.eye(3) * 1e308, "tiny": np.eye(3) * 1e-300,
+           "improper": np.diag([1.0, 1.0, -1.0]), "int-list": [[0, 0, 0], [0, 0, 0], [0, 0, 0]]}
+    for lab, m in DEG.items():
+        ops.append((f"set_ub:degenerate-{lab}", lambda m=m: ub.set_ub(m)))
+        ops.append((f"set_u:degenerate-{lab}", lambda m=m: ub.set_u(m)))
+    for lab, lat in (("zero-length", (0.0, 5.0, 6.0)), ("negative-length", (-4.0,)), ("zero-angle", (4.0, 5.0, 6.0, 0.0)), ("flat-angle", (4.0, 5.0, 6.0, 180.0)),
+                     ("impossible-angles", (4.0, 5.0, 6.0, 10.0, 20.0, 170.0)), ("angles-sum-360", (4.0, 5.0, 6.0, 120.0, 120.0, 120.0)),
+                     ("cubic-zero", ("Cubic", 0.0)), ("hexagonal-negative", ("Hexagonal", 3.0, -5.0)), ("rhombohedral-120", ("Rhombohedral", 4.0, 120.0)),
+                     ("tiny", (1e-300,)), ("huge", (1e300, 1e300, 1e300))):
+        ops.append((f"lattice:degenerate-{lab}", lambda lat=lat: ub.set_lattice("x", *lat)))
+    for lab, (ax, ang) in (("zero-axis", ((0.0, 0.0, 0.0), 5.0)), ("nan-angle", ((0.0, 1.0, 0.0), nan)), ("nan-axis", ((nan, 1.0, 0.0), 5.0)), ("inf-angle", ((0.0, 1.0, 0.0), inf))):
+        ops.append((f"miscut:degenerate-{lab}", lambda ax=ax, ang=ang: ub.set_miscut(ax, ang)))
+        ops.append((f"miscut:degenerate-add-{lab}", lambda ax=ax, ang=ang: ub.set_miscut(ax, ang, True)))
+    ops.append(("fit:too-few", lambda: ub.fit_ub([1, 2], True, True)))
+    ops.append(("fit:none", lambda: ub.fit_ub(None, True, True)))
+    ops.append(("fit:index-above", lambda: ub.fit_ub([1, 2, nr + 3], True, True)))
+    ops.append(("fit:unknown-tag", lambda: ub.fit_ub([1, 2, "zz"], True, True)))
+    for lab, v in (("zero", (0.0, 0.0, 0.0)), ("nan", (nan, 0.0, 1.0)), ("inf", (inf, 0.0, 1.0))):
+        for w in ("n_hkl", "n_phi", "surf_nhkl", "surf_nphi"):
+            ops.append((f"vector:degenerate-{w}-{lab}", lambda v=v, w=w: setattr(ub, w, v)))
     return ops
 
 
@@ -198,7 +222,7 @@ def oracle(ctx, widen=1):
             ub, c = random_state(ctx.rng)
             ops = rejected_ops(ctx.rng, ub, c)
             ctx.rng.shuffle(ops)
-            ops = ops[:30]
+            ops = ops[:40]
         for label, thunk in ops:
             before = snapshot(ub, c)
             exc = None
